@@ -42,7 +42,42 @@ def dense_pattern(m):
   return P
 
 
-def model_strategy(quick):
+@st.composite
+def model_strategy(draw, quick):
+  gm = draw(_base_strategy(quick))
+  # reach: a "simple" body (world child, leaf, aligned inertial frame, axis-aligned joints through the origin: flywheel /
+  # linear stage / gimbal-free combinations) driven by geared actuators with rotor armature and optional joint armature
+  if draw(st.integers(0, 2)) == 0:
+    import xml.etree.ElementTree as ET
+    root = ET.fromstring(gm.xml)
+    wb = root.find('worldbody')
+    b = ET.SubElement(wb, 'body', name='simple', pos='%s %s %s' % tuple(mg.fmt(draw(mg.num(-1, 1, 1))) for _ in range(3)))
+    axes = ['1 0 0', '0 1 0', '0 0 1']
+    nslide = draw(st.integers(0, 2))
+    kinds = ['slide'] * nslide + (['hinge'] if draw(st.booleans()) or nslide == 0 else [])
+    used = draw(st.permutations(axes))
+    jn = []
+    for i, kd in enumerate(kinds):
+      a = dict(name='sj%d' % i, type=kd, axis=used[i])
+      if draw(st.integers(0, 2)) == 0:
+        a['armature'] = mg.fmt(draw(mg.num(0.01, 0.3)))
+      ET.SubElement(b, 'joint', **a)
+      jn.append('sj%d' % i)
+    gt = draw(st.sampled_from(['sphere', 'box']))
+    ET.SubElement(b, 'geom', type=gt, size='0.1' if gt == 'sphere' else '0.1 0.15 0.2', contype='0', conaffinity='0')
+    act = root.find('actuator')
+    if act is None:
+      act = ET.SubElement(root, 'actuator')
+    for j in jn:
+      if draw(st.integers(0, 3)) > 0:
+        ET.SubElement(act, 'motor', name='am_' + j, joint=j, gear=mg.fmt(draw(mg.num(-20, 20, 0)) or 3.0),
+                      armature=mg.fmt(draw(mg.num(0.0001, 0.01, 4))))
+    gm.xml = ET.tostring(root, encoding='unicode')
+    gm.info['labels'] = sorted(set(gm.info['labels']) | {'simple-body-with-actuator-armature'})
+  return gm
+
+
+def _base_strategy(quick):
   return gs.smooth_models(max_bodies=6 if quick else 12, max_joints=3, actuators=True, tendons=True,
                           stateful_actuators=False, cameras=False,
                           joint_kwargs=dict(limits=False, frictionloss=False),
@@ -152,7 +187,7 @@ def main(ck):
     S = kin.snap(m)
     k = kin.fk(S, np.array(d.qpos))
     qvel = np.array(d.qvel)
-    labels = gs.brief(gm.labels(), ('armature:free', 'tendon:')) + gs.classify(lib, m)
+    labels = gs.brief(gm.labels(), ('armature:free', 'tendon:', 'simple-body')) + gs.classify(lib, m)
 
     # ---- (a) M: symmetric, SPD, equals the reference
     M = lib.fullM(m, d)
@@ -289,6 +324,8 @@ def main(ck):
           'mj_rne(1,a) vs (M - armature) a + mj_rne(0)', 'rne1-vs-M')
     if np.any(Ma != 0):
       labels.append('armature-present')
+    if np.any(simple & (np.diag(Ma) > np.array(m.dof_armature))):
+      labels.append('actuator-armature-on-simple-dof')
 
     off = np.abs(M - np.diag(np.diag(M)))
     nt = (nv >= 3 and ('m:branching' in labels or 'm:jnt:ball' in labels or 'm:jnt:free' in labels)
